@@ -1,0 +1,48 @@
+//go:build verif
+
+package ackhandler
+
+import "github.com/refraction-networking/uquic/internal/protocol"
+
+// Test seam for the verification harness in /verif (compiled only with -tags verif).
+//
+// The application-data packet number generator draws the position of the next deliberately
+// skipped packet number from crypto/rand. A replayable state-machine check needs the same
+// operation list to produce the same history, so the harness overrides the drawn position
+// with a value of its own choosing that lies inside the support of the real draw
+// (next+3 <= pn < next+3+2*period). Nothing else is touched.
+
+func verifAppDataGenerator(h SentPacketHandler) *skippingPacketNumberGenerator {
+	var sph *sentPacketHandler
+	switch x := h.(type) {
+	case *sentPacketHandler:
+		sph = x
+	case *uSentPacketHandler:
+		sph = x.sentPacketHandler
+	default:
+		panic("verif: unknown SentPacketHandler implementation")
+	}
+	g, ok := sph.appDataPackets.pns.(*skippingPacketNumberGenerator)
+	if !ok {
+		panic("verif: application-data space does not use the skipping generator")
+	}
+	return g
+}
+
+// VerifNextSkip returns the generator's next packet number and the packet number it is going to skip next.
+func VerifNextSkip(h SentPacketHandler) (next, nextToSkip protocol.PacketNumber) {
+	g := verifAppDataGenerator(h)
+	return g.next, g.nextToSkip
+}
+
+// VerifSetNextSkip replaces the randomly drawn position of the next skipped application-data
+// packet number. It reports false (and changes nothing) if pn is outside the range the generator
+// itself could have drawn at this point.
+func VerifSetNextSkip(h SentPacketHandler, pn protocol.PacketNumber) bool {
+	g := verifAppDataGenerator(h)
+	if pn < g.next+3 {
+		return false
+	}
+	g.nextToSkip = pn
+	return true
+}
